@@ -36,7 +36,7 @@ func genNetConfig(ch *Chooser, prop, tier string, disabled map[string]bool) *Run
 		cfg.TimerBaseMs = append(cfg.TimerBaseMs, b)
 	}
 	if !cfg.FaultFree {
-		cfg.Director = []string{"", "", "split-commit", "split-prepare"}[ch.Pick("director", 4)]
+		cfg.Director = []string{"", "", "split-commit", "split-prepare", "split-commit", "two-locks"}[ch.Pick("director", 6)]
 		cfg.DropPm = drawRate(ch, "r-drop")
 		cfg.DupPm = drawRate(ch, "r-dup")
 		cfg.DelayPm = drawRate(ch, "r-delay")
@@ -662,10 +662,17 @@ type director struct {
 	kind   Kind
 	budget int
 	held   func(f *Flight) bool
+	view1  int64
+	view2  int64
+	wait   int
 }
 
 func (w *World) directorStep() {
 	if w.cfg.Director == "" {
+		return
+	}
+	if w.cfg.Director == "two-locks" {
+		w.twoLocksStep()
 		return
 	}
 	d := w.dir
@@ -747,3 +754,137 @@ func (w *World) directorStep() {
 	}
 }
 
+
+// two-locks director: at one height, the PREPAREs of the first proposed view are all lost (a certificate for that
+// block exists only in the hands of whoever saw the traffic, nobody is locked), everybody times out; in the next
+// view that gets a proposal the COMMITs reach only one lucky node, which decides, and the others time out again.
+// What remains is the classical state in which an old, never-decided certificate competes with the decided lock.
+func (w *World) twoLocksStep() {
+	d := w.dir
+	if d == nil {
+		d = &director{h: uint64(1 + w.ch.Pick("dir-h", w.cfg.Heights)), budget: 600}
+		var cands []int
+		for _, idx := range w.committeeIdx(d.h) {
+			if !w.isByz(idx) {
+				cands = append(cands, idx)
+			}
+		}
+		if len(cands) == 0 {
+			w.cfg.Director = ""
+			return
+		}
+		d.lucky = cands[w.ch.Pick("dir-lucky", len(cands))]
+		d.state = 10
+		d.view1 = -1
+		d.view2 = -1
+		w.dir = d
+		w.hold = func(f *Flight) bool {
+			if f.tag != "" {
+				return false
+			}
+			m := Decode(f.raw)
+			if m == nil || m.Height() != d.h {
+				return false
+			}
+			switch d.state {
+			case 10, 11:
+				return m.Kind == KP && (d.view1 < 0 || int64(m.Ref.V) == d.view1)
+			case 12:
+				return m.Kind == KC && int64(m.Ref.V) == d.view2 && f.to != d.lucky
+			}
+			return false
+		}
+		w.ev("director two-locks h%d lucky n%d", d.h, d.lucky)
+	}
+	d.budget--
+	if d.budget <= 0 && d.state < 13 {
+		d.state = 13
+		w.hold = nil
+		return
+	}
+	dropHeld := func() {
+		keep := w.flights[:0]
+		for _, f := range w.flights {
+			if w.hold != nil && w.hold(f) {
+				w.stats.Fault("drop")
+				continue
+			}
+			keep = append(keep, f)
+		}
+		w.flights = keep
+	}
+	timeoutAll := func(except int) {
+		for _, n := range w.honest() {
+			if n.idx == except || !n.alive || n.height() != d.h || n.trig == nil || n.trig.cur == nil || n.trig.cur.fired {
+				continue
+			}
+			w.stats.Fault("timer-early")
+			w.fireTimer(n, n.trig.cur, "timer-fire(director)")
+		}
+	}
+	switch d.state {
+	case 10: // wait for the first PREPAREs of that height
+		for _, s := range w.sent {
+			if s.msg != nil && s.msg.Kind == KP && s.msg.Ref.H == d.h && d.view1 < 0 {
+				d.view1 = int64(s.msg.Ref.V)
+				d.state = 11
+				d.wait = 12
+			}
+		}
+	case 11: // let the other nodes send their PREPAREs too, then lose them all and time everybody out
+		d.wait--
+		if d.wait <= 0 {
+			dropHeld()
+			d.state = 12
+			timeoutAll(-1)
+			w.probe("director-first-lock-lost")
+		}
+	case 12: // the next view with COMMITs: only the lucky node decides
+		if d.view2 < 0 {
+			for _, s := range w.sent {
+				if s.msg != nil && s.msg.Kind == KC && s.msg.Ref.H == d.h && int64(s.msg.Ref.V) > d.view1 {
+					d.view2 = int64(s.msg.Ref.V)
+				}
+			}
+			return
+		}
+		for _, c := range w.nodes[d.lucky].obs.commits {
+			if c.height == d.h {
+				dropHeld()
+				d.state = 13
+				w.hold = nil
+				timeoutAll(d.lucky)
+				w.probe("director-two-locks-reached")
+				has := map[string]bool{}
+				for _, x := range w.cfg.Strategies {
+					has[x] = true
+				}
+				// further timeouts until the remaining correct nodes sit in a view led by a Byzantine member
+				if len(w.byzMembersAt(d.h)) > 0 {
+					for k := 0; k < len(w.Committee(d.h))+1; k++ {
+						var cur uint64
+						any := false
+						for _, n := range w.honest() {
+							if n.idx != d.lucky && n.alive && n.height() == d.h {
+								any = true
+								if n.view() > cur {
+									cur = n.view()
+								}
+							}
+						}
+						if !any || w.isByz(w.keys.IdxOf(w.leader(d.h, cur))) {
+							break
+						}
+						timeoutAll(d.lucky)
+					}
+				}
+				if has["byz.nv-stale-lock"] && has["byz.follow"] {
+					for i := 0; i < 3; i++ {
+						w.advPlan = append(w.advPlan, "byz.nv-stale-lock", "byz.follow", "byz.follow", "byz.follow", "byz.follow", "byz.follow", "byz.follow")
+					}
+				}
+				return
+			}
+		}
+	}
+}
